@@ -44,6 +44,22 @@ def run_obligations(ob_fns, label_prefix="", features="", package="rcgen", targe
                 except mir.Unsupported as e:
                     ob.result, ob.reason = "inconclusive", str(e)
             rec = ob.record()
+            if ob.result == "pass" and getattr(ob, "battery", None):
+                # model validation: the concrete counterpart of the obligation (a native battery driving the real code, including the parser /
+                # crypto library the solver treats as environment) must agree with the solver's verdict on the current tree
+                op, n_cases = ob.battery
+                doc = {"cex": {"op": op, "features": getattr(ob, "battery_features", [])}}
+                tb = time.time()
+                if mir_replay.replay(doc, profiles=("dev",)):
+                    ob.result = rec["result"] = "inconclusive"
+                    ob.reason = rec["reason"] = ("the native battery for this obligation fails on the current tree although the solver found no violation: the "
+                                                 "environment model misses something (" + str(doc.get("native", {}).get("dev", {}).get("stderr_tail", ""))[-300:] + ")")
+                elif doc.get("native", {}).get("note"):
+                    ob.result = rec["result"] = "inconclusive"
+                    ob.reason = rec["reason"] = "native battery: " + doc["native"]["note"]
+                else:
+                    rec["validated_traces"] = n_cases
+                    rec["native_battery"] = f"{op}: {n_cases} concrete cases executed against the real code agree with the verdict ({time.time() - tb:.0f} s)"
             rec["wall_s"] = round(time.time() - t0, 2)
             rec["cvc5_cross_check"] = getattr(ob, "cvc5", "")
             if hasattr(ob, "idioms"):
